@@ -772,9 +772,15 @@ where
         accounted.extend(&sources);
         accounted.sort();
         if created != accounted {
+            // which way: an identity accounted for twice (released twice / released and still handed out), or one
+            // that is nowhere (lost: leaked)
+            let twice: Vec<i64> = accounted.windows(2).filter(|w| w[0] == w[1]).map(|w| w[0]).collect();
+            let unknown: Vec<i64> = accounted.iter().copied().filter(|x| !created.contains(x)).collect();
+            let lost: Vec<i64> = created.iter().copied().filter(|x| !accounted.contains(x)).collect();
+            let kind = if !twice.is_empty() || !unknown.is_empty() { format!("released twice {:?} / unknown {:?}", twice, unknown) } else { format!("lost {:?}", lost) };
             oracle.push(format!(
-                "ownership not conserved: existed {:?}; dropped {:?} + handed to caller code {:?} + returned {:?} + still owned by borrowed inputs {:?}",
-                created, dropped, handed, out.result, sources
+                "ownership not conserved ({}): existed {:?}; dropped {:?} + handed to caller code {:?} + returned {:?} + still owned by borrowed inputs {:?}",
+                kind, created, dropped, handed, out.result, sources
             ));
         }
         if !out.ok && pan < 0 {
